@@ -49,4 +49,14 @@ def forFirst {α β : Type} (xs : List α) (f : α → Option β) (k : β) : β 
   | some r => r
   | none => k
 
+/-- The hypothesis about the two languages' OWN lower-casing functions under which the two
+classification programs agree (C13): for each special word, a tag of the list lower-cases to it
+under `lowerJs` (JavaScript `toLowerCase`) exactly when one does under `lowerPy` (Python
+`str.lower`).  Weaker than `∀ t, lowerJs t = lowerPy t`, which is false for the real pair on letters
+outside the older of the two runtimes' Unicode versions.  Evaluated by the driver on the recorded
+images of every generated tag list. -/
+def specialAgree (lowerJs lowerPy : String → String) (tags : Option (List String)) : Bool :=
+  ["income", "transfer", "investment"].all fun w =>
+    ((orEmpty tags).map lowerJs).contains w == ((orEmpty tags).map lowerPy).contains w
+
 end TallyVerif
